@@ -1,2 +1,222 @@
+"""C19, client side: whatever a server sends, the client returns well-typed results or raises an ordinary exception."""
+import asyncio
+import itertools
+import pathlib
+import random
+
+import aioftp
+
+from harness import judge, simnet, vloop
+
+UNIX = ["-rw-r--r--", "1", "owner", "group", "1234", "Jan 01 12:30", "name.txt"]
+UNIXD = ["drwxr-xr-x", "2", "o", "g", "0", "Dec 31  2001", "a dir"]
+UNIXL = ["lrwxrwxrwx", "1", "o", "g", "4", "Feb 29 00:00", "lnk -> target/"]
+WIN = ["01/02/2021", "03:04PM", "<DIR>", "folder"]
+WINF = ["12/31/1999", "11:59AM", "1,234", "file name.bin"]
+MLSX = ["Type=file;", "Size=12;", "Modify=20210102030405;", " name"]
+
+MUTS = ["drop", "empty", "dup", "nonascii", "digits", "long", "space", "dash", "ctrl", "swap", "truncate", "quote", "percent", "neg", "huge",
+        "feb30", "arrow", "dots", "tab"]
+
+
+def mutate(val, kind, rng):
+    return {
+        "drop": None, "empty": "", "dup": val + " " + val, "nonascii": "ж" + val + "٣²", "digits": "0123456789" * 3, "long": val * 200,
+        "space": " " + val + "  ", "dash": "-" * len(val), "ctrl": val[:1] + "\x00\x07\x1b" + val[1:], "swap": val[::-1],
+        "truncate": val[: max(0, len(val) // 2)], "quote": '"' + val + "'", "percent": "%s%d{}" + val, "neg": "-1", "huge": "9" * 40,
+        "feb30": "Feb 30 25:61", "arrow": val + " -> ", "dots": "..", "tab": "\t" + val,
+    }[kind]
+
+
+def list_lines(rng, tier):
+    out = []
+    for tname, tmpl, sep in (("unix", UNIX, " "), ("unixd", UNIXD, " "), ("unixl", UNIXL, " "), ("win", WIN, "  "), ("winf", WINF, "  "), ("mlsx", MLSX, "")):
+        for fi in range(len(tmpl)):
+            for mk in MUTS:
+                f = list(tmpl)
+                m = mutate(f[fi], mk, rng)
+                if m is None:
+                    del f[fi]
+                else:
+                    f[fi] = m
+                out.append((tname, fi, mk, sep.join(f)))
+        if tier != "quick":
+            for (f1, f2) in itertools.combinations(range(len(tmpl)), 2):
+                for m1, m2 in rng.sample(list(itertools.product(MUTS, repeat=2)), 25):
+                    f = list(tmpl)
+                    a, b = mutate(f[f1], m1, rng), mutate(f[f2], m2, rng)
+                    f[f1] = a if a is not None else ""
+                    f[f2] = b if b is not None else ""
+                    out.append((tname, f1 * 10 + f2, m1 + "+" + m2, sep.join(f)))
+    # raw byte soup
+    for k in range(60 if tier == "quick" else 1500):
+        n = rng.choice([0, 1, 3, 10, 40])
+        out.append(("bytes", k, "random", bytes(rng.randrange(256) for _ in range(n))))
+    return out
+
+
+def classify(fn, arg, typed):
+    try:
+        r = fn(arg)
+    except ValueError:
+        return "ValueError"
+    except Exception:
+        return "Exception"
+    except BaseException:
+        return "BaseException"
+    return "typed" if typed(r) else "illtyped"
+
+
+def typed_list(r):
+    return (isinstance(r, tuple) and len(r) == 2 and isinstance(r[0], pathlib.PurePosixPath) and isinstance(r[1], dict)
+            and all(isinstance(k, str) for k in r[1]))
+
+
+class FakeServer:
+    """A scripted FTP server: enough protocol for Client.list(); listings are arbitrary bytes per directory."""
+
+    def __init__(self, net, listings, use_mlsd=True, pasv_reply=None):
+        self.net = net
+        self.listings = listings
+        self.use_mlsd = use_mlsd
+        self.pasv_reply = pasv_reply
+        self.data = None
+        self.lines_sent = 0
+
+    async def data_cb(self, r, w):
+        self.data = (r, w)
+
+    async def handle(self, r, w):
+        w.write(b"220 hi\r\n")
+        while True:
+            line = await r.readline()
+            if not line:
+                break
+            cmd, _, arg = line.decode("utf-8", "replace").rstrip().partition(" ")
+            cmd = cmd.upper()
+            if cmd in ("USER", "PASS"):
+                w.write(b"230 ok\r\n")
+            elif cmd == "TYPE":
+                w.write(b"200 ok\r\n")
+            elif cmd == "EPSV":
+                srv = await self.net.start_server(self.data_cb, "127.0.0.1", 0)
+                self.dsrv = srv
+                w.write((self.pasv_reply or ("229 ok (|||%d|)" % srv.port)).encode() + b"\r\n")
+            elif cmd == "PASV":
+                w.write(b"502 no\r\n")
+            elif cmd in ("MLSD", "LIST"):
+                if cmd == "MLSD" and not self.use_mlsd:
+                    w.write(b"502 no\r\n")
+                    continue
+                w.write(b"150 here\r\n")
+                for _ in range(50):
+                    if self.data:
+                        break
+                    await asyncio.sleep(0)
+                body = self.listings.get(arg, self.listings.get("*", b""))
+                self.lines_sent += body.count(b"\n")
+                dr, dw = self.data
+                dw.write(body)
+                dw.close()
+                self.data = None
+                self.dsrv.close()
+                w.write(b"226 done\r\n")
+            elif cmd == "QUIT":
+                w.write(b"221 bye\r\n")
+                break
+            else:
+                w.write(b"502 no\r\n")
+        w.close()
+
+
+def run_lister(listings, use_mlsd, recursive, budget=20000, pasv_reply=None):
+    loop = vloop.new_loop()
+    net = simnet.Net(loop)
+    net.ctl_port = 21
+    saved = aioftp.client.open_connection
+    aioftp.client.open_connection = net.open_connection
+    rec = {"entry": "list", "outcome": "typed", "steps": 0, "budget": budget, "entries_returned": 0, "lines_sent": 0, "unparsable": 0}
+    try:
+        fs = FakeServer(net, listings, use_mlsd, pasv_reply)
+
+        async def main():
+            await net.start_server(fs.handle, "127.0.0.1", 21)
+            c = aioftp.Client()
+            await c.connect("127.0.0.1", 21)
+            await c.login("u", "p")
+            res = await c.list("top", recursive=recursive)
+            return res
+
+        try:
+            res = loop.run_task(main(), budget=budget)
+            ok = isinstance(res, list) and all(isinstance(p, pathlib.PurePosixPath) and isinstance(i, dict) for p, i in res)
+            rec["outcome"] = "typed" if ok else "illtyped"
+            rec["entries_returned"] = len(res)
+        except (vloop.Hang, vloop.Budget):
+            rec["outcome"] = "hang"
+        except asyncio.CancelledError:
+            rec["outcome"] = "BaseException"
+        except Exception:
+            rec["outcome"] = "Exception"
+        rec["steps"] = min(loop.iterations, budget + 1)
+        rec["lines_sent"] = fs.lines_sent
+    finally:
+        aioftp.client.open_connection = saved
+        loop.shutdown()
+    return rec
+
+
 def run_into(chk, tier, seed):
-    chk.notes["client_side"] = "not built yet"
+    rng = random.Random(seed + 19)
+    cases = []
+    cl = aioftp.Client()
+    for tname, fi, mk, text in list_lines(rng, tier):
+        b = text if isinstance(text, bytes) else text.encode("utf-8")
+        cases.append({"entry": "parse_list_line", "outcome": classify(cl.parse_list_line, b, typed_list), "desc": [tname, fi, mk],
+                      "steps": 0, "budget": 0, "entries_returned": 0, "lines_sent": 0, "unparsable": 0})
+        cases.append({"entry": "parse_mlsx_line", "outcome": classify(cl.parse_mlsx_line, b, typed_list), "desc": [tname, fi, mk],
+                      "steps": 0, "budget": 0, "entries_returned": 0, "lines_sent": 0, "unparsable": 0})
+    payloads = ["227 ok (1,2,3,4,5,6)", "227 (1,2,3,4,5)", "227 ()", "227 no parens", "227 (a,b,c,d,e,f)", "227 (999,1,1,1,999,999)", "227 ((1,2,3,4,5,6))",
+                "229 (|||80|)", "229 (||||)", "229 (|||x|)", "229 nothing", "229 (!!!99999999999999999999!)", "229 (|||80|) (|||81|)", "229 (|1|1.2.3.4|80|)",
+                '257 "/a"', '257 "', "257 none", '257 """"', '257 "/a""b" x', "257", ""]
+    for p in payloads + ["%s%s" % (p, "\x00é") for p in payloads]:
+        for name, fn, typed in (("parse_pasv_response", aioftp.Client.parse_pasv_response, lambda r: isinstance(r, tuple) and isinstance(r[1], int)),
+                                ("parse_epsv_response", aioftp.Client.parse_epsv_response, lambda r: isinstance(r, tuple) and isinstance(r[1], int)),
+                                ("parse_directory_response", aioftp.Client.parse_directory_response, lambda r: isinstance(r, pathlib.PurePosixPath))):
+            cases.append({"entry": name, "outcome": classify(fn, p, typed), "desc": ["payload", 0, p], "steps": 0, "budget": 0,
+                          "entries_returned": 0, "lines_sent": 0, "unparsable": 0})
+    for s in ["Jan 01 12:30", "Feb 29 12:30", "Feb 30 12:30", "Jan 01  2001", "", "xx", "Jan 1", "13/13/13", "Feb 29  1900", "Dec 31 24:00", "٣٣٣ ٣٣ ٣٣:٣٣"]:
+        cases.append({"entry": "parse_ls_date", "outcome": classify(aioftp.Client.parse_ls_date, s, lambda r: isinstance(r, str)), "desc": ["date", 0, s],
+                      "steps": 0, "budget": 0, "entries_returned": 0, "lines_sent": 0, "unparsable": 0})
+    # listers: '.' and '..' entries, directory cycles by name, unparsable lines, for MLSD and LIST servers
+    dot = b"Type=cdir; .\r\nType=pdir; ..\r\nType=dir; sub\r\nType=file;Size=1; f\r\n"
+    dotl = b"drwxr-xr-x 2 o g 0 Jan 01 12:30 .\r\ndrwxr-xr-x 2 o g 0 Jan 01 12:30 ..\r\ndrwxr-xr-x 2 o g 0 Jan 01 12:30 sub\r\n-rw-r--r-- 1 o g 1 Jan 01 12:30 f\r\n"
+    scen = [
+        ({"top": dot, "top/sub": dot, "top/sub/sub": b""}, True), ({"top": dotl, "top/sub": dotl, "top/sub/sub": b""}, False),
+        ({"*": b"Type=dir; .\r\nType=dir; ..\r\n"}, True), ({"*": b"drwxr-xr-x 2 o g 0 Jan 01 12:30 ..\r\n"}, False),
+        ({"top": b"Type=dir; a\r\n", "top/a": b"Type=dir; ../a\r\n", "*": b""}, True),
+        ({"top": b"garbage line\r\n-rw-r--r-- 1 o g 1 Jan 01 12:30 f\r\n"}, False),
+        ({"top": b"\xff\xfe\r\n"}, True), ({"top": b"\xff\xfe\r\n"}, False), ({"top": b"Type=dir;\r\n"}, True), ({"top": b"\r\n\r\n"}, False),
+        ({"top": b"no newline at end"}, True), ({"top": b"Type=dir; " + b"x" * 70000 + b"\r\n"}, True),
+    ]
+    for listings, mlsd in scen:
+        for recursive in (False, True):
+            rec = run_lister(listings, mlsd, recursive)
+            rec["desc"] = ["lister", int(mlsd), repr(sorted(listings))[:60]]
+            unp = sum(1 for v in listings.values() for ln in v.split(b"\r\n") if ln in (b"garbage line", b"\xff\xfe")) if not mlsd else 0
+            rec["unparsable"] = 1 if (not mlsd and b"garbage line" in listings.get("top", b"")) else 0
+            cases.append(rec)
+    for reply in ["229 (|||notaport|)", "229 nothing here", "229 (|||999999|)", "200 what"]:
+        rec = run_lister({"top": b""}, True, False, pasv_reply=reply)
+        rec["desc"] = ["pasv-reply", 0, reply]
+        cases.append(rec)
+    chk.cov["evaluations"] += len(cases)
+    bad = judge.judge("ParserContract", [{k: v for k, v in c.items() if k != "desc"} for c in cases], chk)
+    for i in sorted(bad):
+        c = cases[i]
+        chk.violation({"at": "client-" + c["entry"], "outcome": c["outcome"]}, {"case": c}, {"desc": c["desc"]})
+    chk.notes["client_side_cases"] = len(cases)
+    chk.notes["client_side_rule"] = ("mutation product (6 line templates x fields x %d mutation kinds, pairs in thorough, random byte strings) through "
+                                     "parse_list_line / parse_mlsx_line; mutated PASV/EPSV/257 payloads and ls dates; Client.list() against a scripted "
+                                     "server whose listings contain '.', '..', name cycles, undecodable and unparsable lines, under a step budget; "
+                                     "outcomes judged by ParserContract.tla" % len(MUTS))
